@@ -157,6 +157,17 @@ def run(ctx, rep):
                "dispatch is outside the locked region and every path to it passes a release()" if outside_lock and after_rel
                else "a packet is dispatched while the receive lock is held: a handler that makes a nested request "
                     "waits for a reply nobody can receive (self-deadlock)", ctx.loc(d))
+        # ... nor with the waiters' condition held: the handler may run for long and make nested requests; every other thread
+        # that wants to sleep on (or notify) the condition is stuck until it ends, and sleeps through its own reply
+        for cf_ in K.fields_constructed_with(ctx, K.CONN, {"Condition"}):
+            from . import hygiene as H_
+            g2_, must2_, may2_, _eff = H_.lock_state(ctx, f, cf_)
+            held_c = [n_ for n_ in g2_.live if n_.ast is not None and A.find_calls(n_.ast, "self._dispatch") and may2_.get(n_.id)]
+            rep.ob("R13.3", "serve(): dispatch runs without the waiters' condition self.%s held" % cf_, not held_c,
+                   "the condition is held only around wait()/notify_all()" if not held_c else
+                   "`%s` runs inside `with self.%s`: while a handler runs (possibly for long, possibly making nested requests) no "
+                   "other thread can wait on or notify the condition - a waiter whose reply is received meanwhile is not woken"
+                   % (A.norm(held_c[0].ast)[:50], cf_), ctx.loc(held_c[0]) if held_c else ctx.loc(d))
         for c in A.find_calls(d.ast, "self._dispatch"):
             okd = False
             if len(c.args) == 1 and isinstance(c.args[0], ast.Name):
@@ -325,6 +336,7 @@ def run(ctx, rep):
                  "a waiter that saw 'not ready' calls self._conn.serve() next; if another thread publishes the reply in between and "
                  "drops the connection the waiter fails with AttributeError instead of getting its reply")
     _close_only_on_eof(ctx, rep)
+    _serve_threaded_model(ctx, rep)
     rep.rule("R13.13", "every request has a result object of its own, which is what the pending table holds (= R01.4)")
     K.share(ctx, rep, "c01", lambda o: o.rule == "R01.4" and ("sync_request" in o.key or "callback registered" in o.key), "R13.13", floor=2)
     rep.rule("R13.12", "completion callbacks: each runs exactly once even when its registration races with the delivery (= R15.3)")
@@ -374,3 +386,56 @@ def _close_only_on_eof(ctx, rep):
                "clears every thread's pending requests, although the transport is healthy and the peer answers them" % wide,
                ctx.loc(h), kind="site")
     rep.floor("R13.11", "closing handlers in Connection.serve", n_h, 2)
+
+
+def _serve_threaded_model(ctx, rep):
+    """R13.14: Connection.serve_threaded(n) evaluated with a model `spawn` (records the order of events, returns a thread object
+    whose join() records too): all n serving threads exist before the first join() - a request that blocks in its handler then
+    leaves n-1 threads to dispatch the others - each is joined once and the connection is closed afterwards."""
+    from .. import miniinterp as MI
+    rep.rule("R13.14", "serve_threaded(n) starts all n serving threads before it waits for any of them, joins each once and closes")
+    f = ctx.func(K.CONN + ".serve_threaded")
+    rep.analysed(f)
+    bad = []
+    try:
+        for n in (1, 3):
+            ev = []
+
+            class _T:
+                mi_native = True
+
+                def __init__(self, i):
+                    self.i = i
+
+                def join(self, *a):
+                    ev.append(("join", self.i))
+
+                def is_alive(self):
+                    return False
+
+            def spawn_(target, *a, **k):
+                t = _T(len([e for e in ev if e[0] == "spawn"]))
+                ev.append(("spawn", t.i))
+                return t
+            hooks = {"spawn": spawn_, "self.close": lambda *a: ev.append(("close",)),
+                     "threading.Thread": lambda *a, **k: (_ for _ in ()).throw(AnalysisError("serve_threaded builds Thread objects itself"))}
+            extra = {"__calls__": hooks, "__max_iter__": 100, "__globals__": {}}
+            extra["__global_lookup__"] = K.module_function_lookup(ctx, f.module, extra)
+            try:
+                MI.call_method(f.node, {"closed": False}, [n], extra)
+            except MI.Raised as r_:
+                bad.append("serve_threaded(%d) raises %s" % (n, r_.name))
+                continue
+            want = [("spawn", i) for i in range(n)] + [("join", i) for i in range(n)] + [("close",)]
+            spawns = [e for e in ev if e[0] == "spawn"]
+            first_join = next((k for k, e in enumerate(ev) if e[0] == "join"), len(ev))
+            if len(spawns) != n or any(e[0] == "spawn" for e in ev[first_join:]):
+                bad.append("serve_threaded(%d): events %s - a serving thread is only started after another one has been waited for "
+                           "(the connection is served by one thread at a time)" % (n, ev[:8]))
+            elif sorted(e for e in ev if e[0] == "join") != [("join", i) for i in range(n)] or ev[-1:] != [("close",)]:
+                bad.append("serve_threaded(%d): events %s, expected %s" % (n, ev[:10], want))
+    except AnalysisError as e_:
+        rep.undecided("R13.14", "serve_threaded model", str(e_))
+        return
+    rep.ob("R13.14", "serve_threaded: all threads started, then all joined, then close", not bad,
+           "thread counts 1 and 3 evaluated" if not bad else "; ".join(bad)[:500], f.loc, kind="model")
